@@ -20,7 +20,8 @@ TECHNIQUE = ('property-based testing (Hypothesis), metamorphic relations over ge
 RULE = ('Generated model (netgen network with tanks, pumps, valves, CV pipes, leaks, DD/PDD + simple controls on link '
         'status, valve setting and pump speed conditioned on tank level / time / clock time + rules with ELSE) and a '
         'generated history of 2-5 operations from {W: reset if needed and run WNTRSimulator, E: run EpanetSimulator, '
-        'C: deepcopy then run, J: JSON round trip then run, P: pickle round trip then run}, starting with W. Non-trivial '
+        'C: deepcopy then run, J: JSON round trip then run, P: pickle round trip then run, R: run a copy whose numeric report '
+        'step is shorter than the hydraulic step (dictionary check only)}, starting with W. Non-trivial '
         '= the first run converged and some link status, valve setting or leak state changes during it; distinct = SHA-1.')
 ASSUMPTIONS = ['the definition is what to_dict() reports (the statement names the dictionary representation)',
                'a WNTR run that does not converge, or an EPANET run that EPANET itself rejects (error code), is '
@@ -32,7 +33,7 @@ TOLERANCES = {'dict': 'exact equality of json.dumps(to_dict(wn), sort_keys=True)
               'results': '1e-4 m / 1e-6 m3/s + 1e-5 rel, plus two seconds of tank flow per partial step solved so far '
                          '(refs/c10_compare.py); solver TOL 1e-8'}
 
-OPS = ['W', 'E', 'C', 'J', 'P']
+OPS = ['W', 'E', 'C', 'J', 'P', 'R']
 
 
 @st.composite
@@ -158,6 +159,21 @@ def check(case):
         return S.run_wntr(model, hw_approx=hw, tol=1e-8)
 
     for i, op in enumerate(case['ops']):
+        if op == 'R':
+            # a numeric report step shorter than the hydraulic step makes the simulator reduce its own hydraulic step
+            # "for this simulation": the definition (options included) must come out unchanged
+            model = copy.deepcopy(wn)
+            model.reset_initial_values()
+            model.options.time.report_timestep = max(60, o['hyd'] // (2 if i % 2 else 3))
+            before = _dict(model)
+            r = run(model)
+            d1 = _dict(model)
+            if d1 != before:
+                diff = _first_diff(json.loads(before), json.loads(d1)) or 'text differs'
+                return fail('definition_changed/WNTRSimulator(report<hyd)/%s' % _field_of(diff),
+                            'to_dict() differs after a WNTRSimulator run with report_timestep %s < hydraulic_timestep %s '
+                            '(history %s): %s' % (model.options.time.report_timestep, o['hyd'], case['ops'], diff[:600]), tags)
+            continue
         if op == 'E':
             # EPANET needs a numeric report step; set and restore it around the call is itself a definition change, so
             # run EPANET on the model as it is unless the report step is 'ALL' (then use a copy and compare the copy)
